@@ -80,6 +80,8 @@ fn main() {
         "C10" => vh::props::c10::run(&mut rep, thorough),
         "C17" => vh::props::c17::run(&mut rep, thorough),
         "C18" => vh::props::c18::run(&mut rep, thorough),
+        "C08" => vh::props::c08::run(&mut rep, thorough),
+        "C03" => vh::props::c03::run(&mut rep, thorough),
         "smoke" => {
             smoke();
             return;
